@@ -2557,6 +2557,33 @@ def c13(ctx):
             ctx.violation(f"the effect of the patch changed under the layout transformation {'+'.join(done)}",
                           {"input": {"original": oinp["patches"][0], "variant": vinp["patches"][0], "src": oinp["src"]},
                            "original_trace": oimpl["trace"], "variant_trace": vimpl["trace"]})
+    # pairs of layouts of one patch, written out: elisions that share a patch line against one elision per line; a blank line
+    # between the second @@ and a statement patch whose first line carries an elision
+    LAYOUT_PAIRS = [
+        ("@@\n@@\n f(foo(..., x, ...),\n-  old,\n+  new,\n )\n", "@@\n@@\n f(foo(...,\n   x,\n   ...),\n-  old,\n+  new,\n )\n",
+         "package a\n\nfunc g() {\n\tf(foo(1, 2, x, 3, 4), old)\n}\n"),
+        ("@@\nvar v identifier\n@@\n v := open(...)\n ...\n lock()\n ...\n-oldClose(v)\n+newClose(v)\n",
+         "@@\nvar v identifier\n@@\n\n v := open(...)\n ...\n lock()\n ...\n-oldClose(v)\n+newClose(v)\n",
+         "package a\n\nfunc h() {\n\tv := open(1, 2)\n\tcheck(v)\n\tlock()\n\tuse(v)\n\toldClose(v)\n\tdone()\n}\n"),
+        ("@@\n@@\n-g(a(...), b(...), c(...))\n+h(c(...), b(...), a(...))\n", "@@\n@@\n-g(a(...),\n-  b(...),\n-  c(...))\n+h(c(...),\n+  b(...),\n+  a(...))\n",
+         "package a\n\nfunc k() {\n\tg(a(1), b(2, 3), c())\n}\n"),
+        ("@@\n@@\n foo(..., ...)\n ...\n-bar(...)\n+baz(...)\n", "@@\n@@\n\n\n foo(...,\n   ...)\n ...\n-bar(...)\n+baz(...)\n",
+         "package a\n\nfunc m() {\n\tfoo(1, 2)\n\tmid()\n\tbar(3)\n}\n"),
+    ]
+    lp = []
+    for k, (pa, pb, src) in enumerate(LAYOUT_PAIRS):
+        lp += [{"id": f"lp{k}a", "patches": [pa], "src": src}, {"id": f"lp{k}b", "patches": [pb], "src": src}]
+    lres = {r[0]["id"]: r for r in run_engine_batch(ctx, ["-inputs", write_jsonl(ctx, lp)], "c13pairs")}
+    for k, (pa, pb, src) in enumerate(LAYOUT_PAIRS):
+        ctx.evaluations += 1
+        ctx.count("layout_pairs")
+        ctx.nontrivial.add(pa + pb)
+        ra, rb = lres.get(f"lp{k}a"), lres.get(f"lp{k}b")
+        if ra is None or rb is None or (ra[2]["status"], ra[2].get("tree")) != (rb[2]["status"], rb[2].get("tree")) or ra[2]["status"] != "ok" \
+                or not any(t.startswith("k") for t in ra[2]["trace"]) or (ra[3]["status"], ra[3].get("tree")) != (ra[2]["status"], ra[2].get("tree")):
+            ctx.violation("two layouts of one patch have different effects (or the effect differs from the specification's)",
+                          {"input": {"original": pa, "variant": pb, "src": src},
+                           "original_trace": ra[2]["trace"] if ra else None, "variant_trace": rb[2]["trace"] if rb else None})
     # naming the changes of a patch with several changes: every name the first header accepts is accepted in every header and
     # changes nothing (identifiers, identifiers that are Go keywords or predeclared names, compact headers)
     two = ("{H1}\nvar x expression\n@@\n-foo(x)\n+bar(x)\n\n{H2}\nvar y expression\n@@\n-return y, nil\n+return y, errNone\n\n{H3}\n@@\n-qux()\n+quux()\n")
